@@ -5,6 +5,7 @@ import (
 	"fmt"
 	"reflect"
 
+	"github.com/sarchlab/akita/v5/hooking"
 	"github.com/sarchlab/akita/v5/queueing"
 
 	"verif/harness/lib"
@@ -52,6 +53,11 @@ func c14MkRec(v int) c14Rec {
 	return r
 }
 
+// c14NopHook is a hook that observes and does nothing (element family "hk").
+type c14NopHook struct{}
+
+func (c14NopHook) Func(hooking.HookCtx) {}
+
 // c14Outcome, when set, receives the outcome class of every executed history.
 var c14Outcome func(string)
 
@@ -70,6 +76,10 @@ func c14ExecT[T any](hist []c14Op, mk func(int) T) (string, bool, []lib.Problem)
 	name := fmt.Sprintf("Buf%d", capacity)
 	buf := queueing.NewBuffer[T](name, capacity)
 	b := &buf
+	if hist[0].Elem == "hk" {
+		// an observer must not change what the buffer does
+		b.AcceptHook(c14NopHook{})
+	}
 	var model []int
 	vals := func(m []int) []T {
 		out := make([]T, len(m))
@@ -263,17 +273,17 @@ func init() {
 		ID:    "C14",
 		Level: "model_checking",
 		Rule: "explicit-state BFS over histories of {push(auto value),pop,peek,updatefront,clear,mutate-copy,snapshot/restore,JSON pointer/value round trip into a fresh buffer,restore over capacity,restore short,keep the JSON text,decode the kept text into the live buffer (rollback),decode the current text into another used buffer} " +
-			"on the real queueing.Buffer[T] for T in {int, a struct with omitempty scalar, map and pointer members} and capacities 0..3; every transition replays the history on a fresh buffer and compares Size/Capacity/Name/CanPush/Elements/Peek and every return value with a Go slice (deep equality); " +
+			"on the real queueing.Buffer[T] for T in {int, a struct with omitempty scalar, map and pointer members, int with a do-nothing hook attached to the buffer} and capacities 0..3; every transition replays the history on a fresh buffer and compares Size/Capacity/Name/CanPush/Elements/Peek and every return value with a Go slice (deep equality); " +
 			"state = (element type, capacity, contents, push counter mod 3, kept contents)",
 		MinOutcomes: 40,
-		Assumptions: []string{"two element types; hooks not attached (hook firing is covered by C33)"},
+		Assumptions: []string{"two element types; the attached hook only observes (what hooks are told is covered by C33)"},
 		Run: func(c *lib.Ctx) {
 			c14Outcome = c.Outcome
 			lib.BFS(c, lib.BFSConfig[c14Op]{
 				Ops: func(hist []c14Op) []c14Op {
 					if len(hist) == 0 {
 						var first []c14Op
-						for _, el := range []string{"", "rec"} {
+						for _, el := range []string{"", "rec", "hk"} {
 							for cp := 0; cp <= 3; cp++ {
 								first = append(first, c14Op{Cap: cp, Elem: el, Op: "peek"})
 							}
